@@ -21,18 +21,40 @@ CONFIGS_QUICK = [(1, 1, 2), (2, 1, 1), (1, 2, 1)]
 CONFIGS_THOROUGH = CONFIGS_QUICK + [(2, 2, 1), (2, 1, 2), (3, 1, 1), (1, 1, 3)]
 
 
-def rw_module():
-    import ecdsa._rwlock as rw
-    S.instrument_modules([rw])
-    return rw
+_RW_CODE = [None]
+
+
+def load_rw(sc):
+    """A fresh instance of the _rwlock module whose `threading` is the
+    scheduler shim from the first statement on: locks created at import or
+    class-definition time (module globals, class attributes) are scheduler
+    locks of this execution too - a real threading.Lock anywhere in the
+    protocol would block the thread holding the baton."""
+    import types
+    path = os.path.join(common.REPO_SRC, "ecdsa", "_rwlock.py")
+    if _RW_CODE[0] is None:
+        with open(path) as f:
+            _RW_CODE[0] = compile(f.read(), path, "exec")
+    mod = types.ModuleType("ecdsa._rwlock")
+    mod.__file__ = path
+    mod.__package__ = "ecdsa"
+    shim = S.ThreadingShim(sc)
+    real = sys.modules.get("threading")
+    sys.modules["threading"] = shim
+    try:
+        exec(_RW_CODE[0], mod.__dict__)
+    finally:
+        sys.modules["threading"] = real
+    mod.threading = shim
+    S.instrument_modules([mod])
+    return mod
 
 
 def discover_mutable_fields():
     """attribute names of the lock's objects whose value changes after
     construction, found by running every operation sequentially"""
-    rw = rw_module()
     sc = S.Sched()
-    rw.threading = S.ThreadingShim(sc)
+    rw = load_rw(sc)
     lock = rw.RWLock()
 
     def objs():
@@ -70,10 +92,9 @@ class Harness(object):
         self.max_inside = 0
 
     def make_run(self, prefix, expect, on_point):
-        rw = rw_module()
         sc = S.Sched(trace_files=("_rwlock.py",), mutable_fields=self.fields,
                      line_points=self.line_points)
-        rw.threading = S.ThreadingShim(sc)
+        rw = load_rw(sc)
         lock = rw.RWLock()
         inside = set()
         viol = []
